@@ -380,6 +380,35 @@ func c17fixed() []c17case {
 		form := map[string]string{"documented": "documented-escapes", "go-escape": "go-style-escape", "undefined-escape": "undefined-escape"}[s.class]
 		out = append(out, c17case{kind: "str", src: s.src, wantStr: s.want, strClass: s.class, strPlain: s.plain, form: form})
 	}
+	// literals and names longer than any buffer a reader might use: the spelling still denotes what it says
+	for _, L := range []int{3000, 4090, 4096, 4100, 6000, 9003, 70000} {
+		unit, val := `ab\n"c\\é`, "ab\n\"c\\é"
+		_ = unit
+		var src, want strings.Builder
+		src.WriteByte('"')
+		for src.Len() < L {
+			src.WriteString("ab\\n\\\"c\\\\d")
+			want.WriteString("ab\n\"c\\d")
+		}
+		_ = val
+		src.WriteByte('"')
+		out = append(out, c17case{kind: "str", src: src.String(), wantStr: want.String(), strClass: "documented", form: "long-documented-escapes"})
+		digits := strings.Repeat("1234567890", L/10)
+		fl := "0." + digits
+		v, _ := strconv.ParseFloat(fl, 64)
+		out = append(out, c17case{kind: "float", src: fl, wantFloat: v, form: "long-table"})
+		fl2 := "1" + strings.Repeat("_000", L/4) + ".5"
+		v2, err2 := strconv.ParseFloat(strings.ReplaceAll(fl2, "_", ""), 64)
+		c2 := c17case{kind: "float", src: fl2, wantFloat: v2, form: "long-table"}
+		if err2 != nil && math.IsInf(v2, 0) {
+			c2.floatOver, c2.form = true, "table-overflow"
+		}
+		out = append(out, c2)
+		out = append(out, c17case{kind: "int", src: strings.Repeat("0_", L/2) + "42", wantInt: bi("42"), form: "dec"})
+		if L <= 9003 {
+			out = append(out, c17case{kind: "name", src: "n" + strings.Repeat("ame_", L/4) + "x", form: "long"})
+		}
+	}
 	sufs := []string{"fy", "_", "x", "0", "_1", "s", "ed", "where", "If", "?", "!", "x?", "2!"}
 	for _, r := range c17reserved {
 		for _, s := range sufs {
